@@ -809,6 +809,20 @@ pub fn replay_wcet(path: &str, text: &str) -> i32 {
                     println!("replay: no violation");
                     0
                 }
+                Err(TraceFail::Rises { n, before, after, within: false }) => {
+                    let key = "wcet extrapolation raises a bound beyond the extrapolated range";
+                    match crate::harness::known_match("C14", key) {
+                        Some(what) => {
+                            println!("replay: reproduced (n={} before={} after={})", n, before, after);
+                            println!("KNOWN-FINDING: property=C14 {} [key: {}]", what, key);
+                            0
+                        }
+                        None => viol(format!(
+                            "trace [{}], max_n={}, extrapolate({}): cost_of_jobs({}) rises from {} to {} (beyond the extrapolated range)",
+                            nums(&trace), max_n, ext, n, before, after
+                        )),
+                    }
+                }
                 Err(f) => viol(format!("trace [{}], max_n={}, extrapolate({}): {:?}", nums(&trace), max_n, ext, f)),
             }
         }
